@@ -124,8 +124,8 @@ class Number(Element):
             value=values.num_to_str(self.value, self._definition.format),
             label=self._definition.label,
             format=self._definition.format,
-            min=self._definition.min,
-            max=self._definition.max,
+            min=self._definition.min if self._definition.min is not None else 0,
+            max=self._definition.max if self._definition.max is not None else 0,
             step=self._definition.step,
         )
 
